@@ -7,6 +7,7 @@ import (
 	"io"
 	"net"
 	"net/url"
+	"sort"
 	"strings"
 	"sync"
 	"time"
@@ -41,6 +42,8 @@ type c14Case struct {
 	Zone    map[string]c14Zone `json:"zone"`
 	Hosts   []string           `json:"hosts"` // evaluated concurrently (may repeat)
 	Entry   string             `json:"entry"` // FindProxyForURL | FindProxyForURLEx
+	Flip    map[string]c14Zone `json:"flip,omitempty"` // third phase: these names change their DNS answers after an evaluation that consulted DNS has failed
+	zmu     sync.Mutex
 	WOne    int                `json:"w_one"`
 	WRand   int                `json:"w_rand"`
 }
@@ -56,7 +59,10 @@ func genC14(t *tape.Tape, tier string) any {
 	n := 2 + t.Intn(6)
 	for i := 0; i < n; i++ {
 		var cd c14Cond
-		switch t.Pick(2, 3, 2, 1, 4, 3, 2, 1) {
+		switch t.Pick(2, 3, 2, 1, 4, 3, 2, 1, 2) {
+		case 8:
+			cd.Fn = "urlShExp"
+			cd.Args = []string{[]string{"*/admin/*", "*/p1", "http://*/static/*", "*.example.com/*"}[t.Intn(4)]}
 		case 0:
 			cd.Fn = "isPlainHostName"
 		case 1:
@@ -121,14 +127,46 @@ func genC14(t *tape.Tape, tier string) any {
 			c.Bad[h] = []string{"throw", "number", "unicode", "null"}[t.Intn(4)]
 		}
 	}
+	if t.Chance(1, 3) && len(c.Hosts) > 0 {
+		// the same origin several times (with different paths, see urlFor)
+		h := c.Hosts[t.Intn(len(c.Hosts))]
+		for k := 1 + t.Intn(3); k > 0; k-- {
+			c.Hosts = append(c.Hosts, h)
+		}
+	}
+	if t.Chance(1, 3) {
+		c.Flip = map[string]c14Zone{}
+		for h, z := range c.Zone {
+			if len(c.Flip) >= 2 || c.Bad[h] != "" {
+				continue
+			}
+			switch z.Mode {
+			case "ok":
+				c.Flip[h] = c14Zone{Mode: "nxdomain"}
+			case "nxdomain":
+				c.Flip[h] = c14Zone{Mode: "ok", A: []string{"10.1.2.3"}}
+			}
+		}
+	}
 	c.WOne = t.Pick(6, 2, 1)
 	c.WRand = t.Pick(2, 4, 2) * 2
 	return c
 }
 
+// urlFor gives every evaluation its own URL: the path depends on the position in the batch.
+func (c *c14Case) urlFor(i int, h string) *url.URL {
+	path := []string{"/x", "/p1", "/admin/settings", "/static/a.css"}[i%4] + fmt.Sprint(i/4)
+	if i%4 == 1 && i/4 == 0 {
+		path = "/p1"
+	}
+	return &url.URL{Scheme: "http", Host: h, Path: path}
+}
+
 func (c *c14Case) script() string {
 	var sb strings.Builder
 	fmt.Fprintf(&sb, "function %s(url, host) {\n", c.Entry)
+	// an evaluation that consults DNS and then fails
+	sb.WriteString("  if (url.indexOf('/boom') >= 0) { isResolvable(host); dnsResolve(host); throw new Error('late boom'); }\n")
 	for h, kind := range sortedMap(c.Bad) {
 		_ = h
 		_ = kind
@@ -156,15 +194,17 @@ func (c *c14Case) script() string {
 			e = fmt.Sprintf("isInNet(host, %q, %q)", cd.Args[0], cd.Args[1])
 		case "isInNetEx":
 			e = fmt.Sprintf("isInNetEx(dnsResolveEx(host).split(';')[0], %q)", cd.Args[0])
+		case "urlShExp":
+			e = fmt.Sprintf("shExpMatch(url, %q)", cd.Args[0])
 		default:
 			e = fmt.Sprintf("%s(host, %q)", cd.Fn, cd.Args[0])
 		}
 		if cd.Neg {
 			e = "!(" + e + ")"
 		}
-		fmt.Fprintf(&sb, "  if (%s) return %q + ' #' + host;\n", e, cd.Ret)
+		fmt.Fprintf(&sb, "  if (%s) return %q + ' #' + url;\n", e, cd.Ret)
 	}
-	fmt.Fprintf(&sb, "  return %q + ' #' + host;\n}\n", c.Default)
+	fmt.Fprintf(&sb, "  return %q + ' #' + url;\n}\n", c.Default)
 	return sb.String()
 }
 
@@ -183,6 +223,15 @@ func sortedKeys(m map[string]string) []string {
 }
 
 func sortedMap(m map[string]string) map[string]string { return nil }
+
+func sortedZoneKeys(m map[string]c14Zone) []string {
+	var ks []string
+	for k := range m {
+		ks = append(ks, k)
+	}
+	sort.Strings(ks)
+	return ks
+}
 
 // reference semantics (Netscape text, on the domain where Mozilla/Chromium agree) ---
 
@@ -216,14 +265,16 @@ func (c *c14Case) resolve4(host string) (net.IP, bool) {
 	if host == "localhost" {
 		return net.IPv4(127, 0, 0, 1).To4(), true // /etc/hosts
 	}
+	c.zmu.Lock()
 	z, ok := c.Zone[host]
+	c.zmu.Unlock()
 	if !ok || z.Mode != "ok" || len(z.A) == 0 {
 		return nil, false
 	}
 	return net.ParseIP(z.A[0]).To4(), true
 }
 
-func (c *c14Case) refEval(host string) (string, bool) {
+func (c *c14Case) refEval(host, rawURL string) (string, bool) {
 	if _, bad := c.Bad[host]; bad {
 		return "", false
 	}
@@ -261,15 +312,17 @@ func (c *c14Case) refEval(host string) (string, bool) {
 				_, nw, _ := net.ParseCIDR(cd.Args[0])
 				v = nw.Contains(ip)
 			}
+		case "urlShExp":
+			v = globMatch(rawURL, cd.Args[0])
 		}
 		if cd.Neg {
 			v = !v
 		}
 		if v {
-			return cd.Ret + " #" + host, true
+			return cd.Ret + " #" + rawURL, true
 		}
 	}
-	return c.Default + " #" + host, true
+	return c.Default + " #" + rawURL, true
 }
 
 // the simulated DNS server: DNS over a stream (2-byte length prefix), answers from the zone.
@@ -294,7 +347,9 @@ func (c *c14Case) serveDNS(env *core.Env, conn *simnet.Conn) {
 			return
 		}
 		name := strings.TrimSuffix(q.Name.String(), ".")
+		c.zmu.Lock()
 		z, ok := c.Zone[name]
+		c.zmu.Unlock()
 		if z.DelayMs > 0 {
 			time.Sleep(time.Duration(z.DelayMs) * time.Millisecond)
 		}
@@ -380,10 +435,23 @@ func runC14(env *core.Env, ci any) {
 	}
 	concurrent := make([]c14Answer, len(c.Hosts))
 	sequential := make([]c14Answer, len(c.Hosts))
-	call := func(p *pac.ProxyResolverPool, h string) c14Answer {
-		u := &url.URL{Scheme: "http", Host: h, Path: "/x"}
+	callURL := func(p *pac.ProxyResolverPool, u *url.URL) c14Answer {
 		s, err := p.FindProxyForURL(u, "")
 		return c14Answer{s, err}
+	}
+	call := func(p *pac.ProxyResolverPool, h string) c14Answer {
+		return callURL(p, &url.URL{Scheme: "http", Host: h, Path: "/x"})
+	}
+	flipHosts := sortedZoneKeys(c.Flip)
+	afterFlip := make([]c14Answer, len(flipHosts))
+	// the reference answers of the first two phases, against the zone as it is now
+	type refAns struct {
+		res string
+		ok  bool
+	}
+	refs := make([]refAns, len(c.Hosts))
+	for i, h := range c.Hosts {
+		refs[i].res, refs[i].ok = c.refEval(h, c.urlFor(i, h).String())
 	}
 	env.Sched.Go(func() {
 		// a warm-up evaluation of every "bad" host first: a failed evaluation must not poison later ones
@@ -396,7 +464,7 @@ func runC14(env *core.Env, ci any) {
 			wg.Add(1)
 			go func() {
 				defer wg.Done()
-				concurrent[i] = call(pool, h)
+				concurrent[i] = callURL(pool, c.urlFor(i, h))
 			}()
 		}
 		wg.Wait()
@@ -406,7 +474,22 @@ func runC14(env *core.Env, ci any) {
 			return
 		}
 		for i, h := range c.Hosts {
-			sequential[i] = call(p2, h)
+			sequential[i] = callURL(p2, c.urlFor(i, h))
+		}
+		// third phase: evaluations that consult DNS and then fail; the names' DNS answers change; evaluate again
+		if len(flipHosts) > 0 {
+			for _, h := range flipHosts {
+				callURL(pool, &url.URL{Scheme: "http", Host: h, Path: "/boom"})
+			}
+			c.zmu.Lock()
+			for h, z := range c.Flip {
+				c.Zone[h] = z
+			}
+			c.zmu.Unlock()
+			env.Fault("dns_answer_changed_after_failed_evaluation")
+			for i, h := range flipHosts {
+				afterFlip[i] = callURL(pool, &url.URL{Scheme: "http", Host: h, Path: "/after"})
+			}
 		}
 	})
 	out := env.Sched.Run(env.Sched.ActorsDone)
@@ -415,7 +498,7 @@ func runC14(env *core.Env, ci any) {
 	} else {
 		for i, h := range c.Hosts {
 			cc, sq := concurrent[i], sequential[i]
-			ref, refOK := c.refEval(h)
+			ref, refOK := refs[i].res, refs[i].ok
 			feature := "concurrent-vs-sequential"
 			if (cc.err != nil) != (sq.err != nil) || cc.res != sq.res {
 				env.Fail("pac-concurrent-differs", feature, "host %q (one of %d concurrent evaluations): concurrently -> (%q, %v), one at a time -> (%q, %v)", h, len(c.Hosts), cc.res, cc.err, sq.res, sq.err)
@@ -450,6 +533,14 @@ func runC14(env *core.Env, ci any) {
 					env.Fail("pac-result-parse", list, "result list %q parsed into %d entries (error %v), expected %d", list, len(all), perr, want)
 				}
 			}
+		}
+		for i, h := range flipHosts {
+			ref, refOK := c.refEval(h, "http://"+h+"/after")
+			got := afterFlip[i]
+			if refOK != (got.err == nil) || (refOK && got.res != ref) {
+				env.Fail("pac-stale-after-failed-evaluation", c.Flip[h].Mode, "host %q: an evaluation that consulted DNS failed, then the name's DNS answer changed (%v); the next evaluation returned (%q, %v), the script evaluated against the current DNS gives (%q, ok=%v)", h, c.Flip[h], got.res, got.err, ref, refOK)
+			}
+			env.Probe("evaluated_after_dns_change")
 		}
 		if len(c.Hosts) > 4 {
 			env.Probe("five_or_more_concurrent_evaluations")
